@@ -416,7 +416,7 @@ func ruleP18Width(p *Prog, r *Report) {
 		return
 	}
 	okLen := false
-	eachInstr(cell, func(in ssa.Instruction) {
+	eachVInstr(cell, func(in ssa.Instruction) {
 		st, ok := in.(*ssa.Store)
 		if !ok {
 			return
@@ -477,6 +477,64 @@ func ruleP18Width(p *Prog, r *Report) {
 		}
 	})
 	r.check(okPad, rule, "Collect:padding", p.pos(collect.Pos()), "padding = column width - measured cell width", "padding is not computed from the measured (unstyled) widths")
+	// … and the cell's text itself — which may carry escape sequences — is only handed on as it
+	// is (or repeated, for a fill cell): it is never measured or padded by a library routine that
+	// counts its bytes (a `%-*s`, a len()), which would pad styled cells less than plain ones
+	badUse := ""
+	eachVInstr(collect, func(in ssa.Instruction) {
+		u, ok := in.(*ssa.UnOp)
+		if !ok || u.Op != token.MUL {
+			return
+		}
+		fa, ok := u.X.(*ssa.FieldAddr)
+		if !ok || fieldName(fa) != "value" || typeNameOf(derefType(fa.X.Type())) != "cell" {
+			return
+		}
+		var follow func(v ssa.Value, depth int)
+		follow = func(v ssa.Value, depth int) {
+			if depth > 3 || v.Referrers() == nil {
+				return
+			}
+			for _, ref := range *v.Referrers() {
+				switch x := ref.(type) {
+				case *ssa.DebugRef:
+				case *ssa.MakeInterface:
+					follow(x, depth+1)
+				case *ssa.Store:
+					// an element of a variadic argument list
+					if ia, isIA := x.Addr.(*ssa.IndexAddr); isIA {
+						if al, isAl := ia.X.(*ssa.Alloc); isAl {
+							for _, r2 := range *al.Referrers() {
+								if sl, isSl := r2.(*ssa.Slice); isSl {
+									follow(sl, depth+1)
+								}
+							}
+						}
+					}
+				case ssa.CallInstruction:
+					if g := rawStaticCallee(x); g != nil {
+						if g.String() == "strings.Repeat" {
+							continue
+						}
+						badUse = calleeName(x) + " at " + p.instrPos(x)
+						continue
+					}
+					if bi, isB := x.Common().Value.(*ssa.Builtin); isB {
+						badUse = bi.Name() + "() at " + p.instrPos(x)
+					}
+					// a dynamic call: the output function
+				default:
+					if _, isV := ref.(ssa.Value); isV {
+						if bo, isBo := ref.(*ssa.BinOp); isBo && bo.Op == token.ADD {
+							follow(bo, depth+1)
+						}
+					}
+				}
+			}
+		}
+		follow(u, 0)
+	})
+	r.check(badUse == "", rule, "Collect:value", p.pos(collect.Pos()), "a cell's text is handed to the output as it is", "Collect hands a cell's text to "+badUse+": the text may carry escape sequences, whose bytes such a routine counts — styled cells are padded less than plain ones, and the rows no longer line up under a colour scheme")
 	// print --with-totals: the width is measured on the unstyled ToString()
 	pw := p.fn("klog/app/cli", "printWithDurations")
 	if r.anchorFn(rule, pw, "cli.printWithDurations") {
